@@ -40,7 +40,8 @@ def peer_strategy(dll=None, roles=("orig", "resp"), modes=("rts", "rts", "bam"),
              "bam_dt": None, "rts_dt": None,
              "sas": draw(st.sampled_from([[0x30, 0x90], [0x30, 0x90], [0x00, 0x90], [0x30, 0x00], [0x01, 0xFD], [0xFD, 0x80],
                                           [0x7F, 0xF7], [0xF8, 0x7F]])),
-             "tx_time": draw(st.sampled_from([0.0, 0.0, 0.0, 0.0001, 0.0005]))}
+             "tx_time": draw(st.sampled_from([0.0, 0.0, 0.0, 0.0001, 0.0005])),
+             "app_timer": draw(st.sampled_from([None, None, None, 0.3, 1.0, 2.0]))}
         if mode == "bam":
             kind = draw(st.sampled_from(["pdu2", "pdu1"]))
             if kind == "pdu2":
@@ -117,6 +118,8 @@ def run(p):
                     tx_time=p.get("tx_time", 0.0))
         s.add_ca("s", 0x100, SA_S)
         s.listen_ca("s")
+        if p.get("app_timer"):
+            s.ecu.add_timer(p["app_timer"], lambda cookie: True)      # a cyclic application job on the same ECU
         if p["role"] == "s2s":
             s2 = w.stack("P", dll=p["dll"], max_cmdt=p["max_cmdt_r"])
             s2.add_ca("p", 0x200, SA_P)
